@@ -5,6 +5,7 @@ pid, wt, caught, missed = sys.argv[1], sys.argv[2], sys.argv[3], sys.argv[4]
 needs = sys.argv[5]
 extra = sys.argv[6] if len(sys.argv) > 6 else ""
 patch_override = sys.argv[7] if len(sys.argv) > 7 else None
+prop = pid.split("-")[0]   # "C06-2" = second seeded change for C06
 dst = f"/verif/seeded/{pid}"
 os.makedirs(dst, exist_ok=True)
 shutil.copy(patch_override or f"{wt}/patch.diff", f"{dst}/patch.diff")
@@ -13,7 +14,7 @@ if os.path.exists(f"{wt}/NOTES.md"):
     shutil.copy(f"{wt}/NOTES.md", f"{dst}/NOTES.md")
 base = subprocess.run(["git", "-C", wt, "rev-parse", "HEAD"], capture_output=True, text=True).stdout.strip()
 meta = {
-    "property": pid,
+    "property": prop,
     "origin": "independent sub-agent given only the property text and its own scratch worktree of /repo",
     "base_commit": base,
     "needs_to_manifest": needs,
